@@ -52,6 +52,7 @@ type c07eGrant struct {
 	Cmd   int `json:"cmd"`   // command text index
 	Start int `json:"start"` // seconds relative to the session clock
 	Exp   int `json:"exp"`
+	Len   int `json:"len,omitempty"` // command grants: index into c07Lens (0 short text, 1 = 254, 2 = 255 bytes: what an intent can carry on the wire)
 }
 
 type c07eReq struct {
@@ -62,6 +63,11 @@ type c07eReq struct {
 	HoldS int `json:"hold,omitempty"` // kinds 0,1,2,4,6: seconds to let pass AFTER the tubes of the request were opened and BEFORE its body is sent
 	Dir   int `json:"dir,omitempty"`  // kind 6: direction byte of the control message (the protocol defines 4 = local, 5 = remote)
 	Net   int `json:"net,omitempty"`  // kind 6: network-type byte (the protocol defines 1 tcp, 2 udp, 3 unix); the address is always a unix path
+	Len   int `json:"len,omitempty"`  // kinds 0, 1: index into c07Lens - the base command extended to 254 / 255 / 256 / 300 bytes before the variant is applied
+	// kinds 2 and 6 (local direction): the address to forward to is not the harness's listening socket but one the server
+	// cannot connect to - 1: a unix path in a directory that does not exist, 2: a path that does not exist in the harness's
+	// directory, 3: a socket file nobody listens on (connection refused). The dial fails at once; nothing blocks.
+	Bad int `json:"bad,omitempty"`
 }
 
 type c07eCase struct {
@@ -76,8 +82,11 @@ type c07eCase struct {
 var c07eCmds = []string{"ls", "cat /etc/motd", "true", "uname -a"}
 var c07eUsers = []string{"alice", "bob", "Alice", "Bob"} // distinct accounts; index^2 differs by case only
 
-func c07eText(cmd, variant int) string {
+func c07eText(cmd, variant, ln int) string {
 	base := c07eCmds[cmd%len(c07eCmds)]
+	if n := c07Lens[ln%len(c07Lens)]; n > 0 {
+		base = c07Pad(base, n)
+	}
 	switch variant % 5 {
 	case 1:
 		return base[:len(base)-1]
@@ -95,6 +104,7 @@ func c07eText(cmd, variant int) string {
 var (
 	c07eOnce    sync.Once
 	c07eDir     string // directory of the per-case port-forward target sockets
+	c07eStale   string // a socket file in c07eDir that nobody listens on
 	c07eSrvKey  *keys.X25519KeyPair
 	c07eSrvKEM  *keys.KEMKeyPair
 	c07eSrvLeaf *certs.Certificate
@@ -114,6 +124,12 @@ func c07eSetup() {
 			panic(err)
 		}
 		c07eDir = dir
+		// a socket file left behind by a listener that is gone: connecting to it is refused at once
+		c07eStale = filepath.Join(dir, "stale.sock")
+		if ln, err := net.ListenUnix("unix", &net.UnixAddr{Name: c07eStale, Net: "unix"}); err == nil {
+			ln.SetUnlinkOnClose(false)
+			ln.Close()
+		}
 		c07eSrvKey = keys.GenerateNewX25519KeyPair()
 		c07eSrvKEM, err = keys.GenerateKEMKeyPair(rand.Reader)
 		if err != nil {
@@ -190,8 +206,9 @@ func (tg *c07eTarget) Count() (int, error) {
 }
 
 type c07eModelGrant struct {
-	g    c07eGrant
-	used bool
+	g     c07eGrant
+	used  bool
+	maybe bool // a forwarding this grant authorized failed because the address could not be reached: the server may or may not have spent it
 }
 
 func c07eScenario(c c07eCase, tg *c07eTarget, v *vlib.Verdict) {
@@ -236,7 +253,7 @@ func c07eScenario(c c07eCase, tg *c07eTarget, v *vlib.Verdict) {
 	var model []*c07eModelGrant
 	for _, g := range c.Grants {
 		gt := []authgrants.GrantType{authgrants.Shell, authgrants.Command, authgrants.LocalPF, authgrants.RemotePF}[g.Type%4]
-		in := verifAuthzIntent(c07eUsers[g.User%len(c07eUsers)], g.Key%verifAuthzNKeys, gt, c07eText(g.Cmd, 0), verifAuthzAt(g.Start), verifAuthzAt(g.Exp))
+		in := verifAuthzIntent(c07eUsers[g.User%len(c07eUsers)], g.Key%verifAuthzNKeys, gt, c07eText(g.Cmd, 0, g.Len), verifAuthzAt(g.Start), verifAuthzAt(g.Exp))
 		if err := z.S.AddAuthGrant(in); err == nil {
 			model = append(model, &c07eModelGrant{g: g})
 		}
@@ -366,7 +383,19 @@ func c07eScenario(c c07eCase, tg *c07eTarget, v *vlib.Verdict) {
 		var t int
 		var match *c07eModelGrant
 		edge, judged := false, false
-		text := c07eText(rq.Cmd, rq.Var)
+		text := c07eText(rq.Cmd, rq.Var, rq.Len)
+		// the address a local forwarding is asked for: the harness's listening socket, or one the server cannot reach
+		fwdAddr, unreachable := tg.path, false
+		if rq.Kind == 2 || rq.Kind == 6 && byte(rq.Dir) == 4 {
+			switch rq.Bad % 4 {
+			case 1:
+				fwdAddr, unreachable = "/nonexistent-verif-c07/local.sock", true
+			case 2:
+				fwdAddr, unreachable = filepath.Join(c07eDir, "no-such.sock"), true
+			case 3:
+				fwdAddr, unreachable = c07eStale, true
+			}
+		}
 		// judge consults the model at the moment the request proper is SENT: an action is requested (and, if
 		// allowed, started) when its request message arrives, not when the tubes that carry it were opened.
 		judge := func() {
@@ -379,7 +408,7 @@ func c07eScenario(c c07eCase, tg *c07eTarget, v *vlib.Verdict) {
 				}
 				switch rq.Kind {
 				case 0:
-					if m.g.Type%4 == 1 && c07eText(m.g.Cmd, 0) == text {
+					if m.g.Type%4 == 1 && c07eText(m.g.Cmd, 0, m.g.Len) == text {
 						match = m
 					}
 				case 1:
@@ -427,7 +456,10 @@ func c07eScenario(c c07eCase, tg *c07eTarget, v *vlib.Verdict) {
 			allowed, answered = c07eExec(mux, text, rq.Kind == 1, hold)
 		case 2:
 			what = "local port forward"
-			allowed, answered = c07ePF(mux, 4, tg.path, hold)
+			if unreachable {
+				what = "local port forward to an address that cannot be reached"
+			}
+			allowed, answered = c07ePF(mux, 4, fwdAddr, hold)
 		case 4:
 			// the address to listen on is a unix socket in a directory that does not exist: the server answers the
 			// request (that answer is the authorization decision), then fails to listen and gives up, so nothing blocks
@@ -435,7 +467,10 @@ func c07eScenario(c c07eCase, tg *c07eTarget, v *vlib.Verdict) {
 			allowed, answered = c07ePF(mux, 5, tg.path, hold)
 		case 6:
 			what = fmt.Sprintf("port-forward control request with direction byte %d, network-type byte %d", byte(rq.Dir), byte(rq.Net))
-			allowed, answered = c07ePFRaw(mux, c07ePFBytesNet(byte(rq.Net), byte(rq.Dir), tg.path), hold)
+			if unreachable {
+				what += " to an address that cannot be reached"
+			}
+			allowed, answered = c07ePFRaw(mux, c07ePFBytesNet(byte(rq.Net), byte(rq.Dir), fwdAddr), hold)
 		case 3:
 			what = "issue a shell grant for itself"
 			judge()
@@ -476,6 +511,17 @@ func c07eScenario(c c07eCase, tg *c07eTarget, v *vlib.Verdict) {
 			}
 			v.Labelf("pf-control-bytes:dir=%d,net=%d", byte(rq.Dir), byte(rq.Net))
 		}
+		if unreachable {
+			kind += ":unreachable-address"
+		}
+		if (rq.Kind == 0 || rq.Kind == 1) && rq.Len%len(c07Lens) != 0 {
+			v.Labelf("exec-text-of-%d-bytes", len(text))
+			for _, m := range mine {
+				if g := c07eText(m.g.Cmd, 0, m.g.Len); m.g.Type%4 == 1 && len(g) >= 200 && g != text && len(text) > len(g) && text[:len(g)] == g {
+					v.Labelf("exec-text-is-a-granted-text-of-%d-bytes-plus-a-suffix", len(g))
+				}
+			}
+		}
 		if rq.Kind == 5 {
 			allowed = reached > 0
 		}
@@ -513,9 +559,12 @@ func c07eScenario(c c07eCase, tg *c07eTarget, v *vlib.Verdict) {
 			continue
 		}
 		if localFwd {
-			if allowed {
+			switch {
+			case allowed:
 				lastControl = "after-granted-control-request"
-			} else {
+			case unreachable && match != nil && !edge:
+				lastControl = "after-authorized-forwarding-whose-dial-failed"
+			default:
 				lastControl = "after-refused-control-request"
 			}
 		}
@@ -526,6 +575,20 @@ func c07eScenario(c c07eCase, tg *c07eTarget, v *vlib.Verdict) {
 			v.Label("request-at-grant-time-edge(not-judged)")
 			if allowed && match != nil {
 				match.used = true
+			}
+			continue
+		}
+		if !allowed && match != nil && (unreachable || match.maybe) {
+			// A forwarding the model authorizes fails because the server cannot connect to the address (or: a request
+			// is refused whose only matching grant authorized such a failed forwarding earlier). Whether the failed
+			// attempt spent the grant is the server's choice - the statement is an only-if. The model keeps the grant
+			// as unused, which is the more permissive reading, and goes on judging: whatever the server allows from
+			// now on still needs a matching, effective, unused grant.
+			if unreachable {
+				match.maybe = true
+				v.Label("authorized-forwarding-failed:address-unreachable(grant-kept-in-the-model)")
+			} else {
+				v.Label("refused:" + kind + ":only-grant-possibly-spent-by-a-failed-forwarding")
 			}
 			continue
 		}
@@ -684,7 +747,11 @@ func c07eGen(t *rapid.T) c07eCase {
 	c.Enabled = rapid.SampledFrom([]bool{true, true, true, false}).Draw(t, "enabled")
 	c.InFile = rapid.SampledFrom([]bool{false, false, false, false, true}).Draw(t, "inFile")
 	c.Grants = rapid.SliceOfN(rapid.Custom(func(t *rapid.T) c07eGrant {
-		g := c07eGrant{Type: rapid.SampledFrom([]int{0, 1, 1, 1, 2, 3}).Draw(t, "type"), Cmd: rapid.IntRange(0, 2).Draw(t, "cmd")}
+		g := c07eGrant{Type: rapid.SampledFrom([]int{0, 1, 1, 1, 2, 2, 3}).Draw(t, "type"), Cmd: rapid.IntRange(0, 2).Draw(t, "cmd")}
+		if g.Type == 1 {
+			// a third of the command grants carry a text at the length limit of an intent's strings (254 / 255 bytes)
+			g.Len = rapid.SampledFrom([]int{0, 0, 0, 0, 1, 2, 2}).Draw(t, "len")
+		}
 		// mostly for the connecting pair
 		g.User = c.User
 		g.Key = c.Key
@@ -713,14 +780,45 @@ func c07eGen(t *rapid.T) c07eCase {
 		if len(c.Grants) > 0 && rapid.IntRange(0, 2).Draw(t, "like-a-grant") == 0 {
 			g := rapid.SampledFrom(c.Grants).Draw(t, "like")
 			rq.Kind, rq.Cmd, rq.Var = []int{1, 0, 2, 4}[g.Type%4], g.Cmd, 0
+			if g.Type%4 == 1 && g.Len != 0 {
+				// a granted text at the length limit: asked for as it is, with something appended or cut (the variants), or
+				// as the longer text that starts with it (256 / 300 bytes)
+				rq.Len = rapid.SampledFrom([]int{g.Len, g.Len, g.Len, g.Len, 3, 4}).Draw(t, "len-like")
+				rq.Var = rapid.SampledFrom([]int{0, 0, 2, 4, 1}).Draw(t, "var-like")
+			}
+			if g.Type%4 == 2 {
+				// a granted local forwarding, often to an address the server cannot reach
+				rq.Bad = rapid.SampledFrom([]int{0, 0, 1, 2, 3}).Draw(t, "bad-like")
+			}
+		} else {
+			switch rq.Kind {
+			case 0, 1:
+				rq.Len = rapid.SampledFrom([]int{0, 0, 0, 0, 0, 1, 2, 3, 4}).Draw(t, "len")
+			case 2:
+				rq.Bad = rapid.SampledFrom([]int{0, 0, 0, 1, 2, 3}).Draw(t, "bad")
+			}
 		}
 		if rq.Kind == 6 {
 			rq.Dir = rapid.SampledFrom([]int{0, 1, 3, 6, 99, 255, 4, 5}).Draw(t, "dir")
 			rq.Net = rapid.SampledFrom([]int{3, 3, 3, 3, 3, 1, 2, 0, 4, 255}).Draw(t, "net")
+			if rq.Dir == 4 {
+				rq.Bad = rapid.SampledFrom([]int{0, 0, 0, 1, 2, 3}).Draw(t, "bad")
+			}
+		}
+		// a local forwarding to an unreachable address is mostly followed by further forwarding requests (to the
+		// reachable target, or remote ones) in the same session
+		afterBad := i > 0 && c.Reqs[i-1].Bad != 0 && (c.Reqs[i-1].Kind == 2 || c.Reqs[i-1].Kind == 6 && c.Reqs[i-1].Dir == 4)
+		if afterBad && rapid.IntRange(0, 2).Draw(t, "forward-after-unreachable") != 0 {
+			rq.Kind, rq.Bad, rq.Len = rapid.SampledFrom([]int{2, 2, 4, 6}).Draw(t, "kind-after-unreachable"), 0, 0
+			if rq.Kind == 6 {
+				rq.Dir, rq.Net = rapid.SampledFrom([]int{4, 5}).Draw(t, "dir"), 3
+			}
+			c.Reqs = append(c.Reqs, rq)
+			continue
 		}
 		// a data tube most often follows a control request (granted or refused), but also comes out of the blue (above)
 		if i > 0 && (c.Reqs[i-1].Kind == 2 || c.Reqs[i-1].Kind == 6) && rapid.IntRange(0, 2).Draw(t, "data-after-control") != 0 {
-			rq.Kind = 5
+			rq.Kind, rq.Bad, rq.Len = 5, 0, 0
 		}
 		c.Reqs = append(c.Reqs, rq)
 	}
